@@ -257,11 +257,11 @@ impl Track {
     pub fn play_from(&mut self, timepos: isize) {
         let mut events: Vec<Event> = vec![];
         let mut events_head: Vec<Event> = vec![]; // events before timepos (placed before the remaining events)
-        let mut cc_values: Vec<isize> = vec![];
-        let mut cc_channels: Vec<isize> = vec![]; // each value is restored on the channel it was set on
-        let mut voice: isize = -1;
-        let mut voice_ch: isize = 0;
-        for _ in 0..128 { cc_values.push(-1); cc_channels.push(0); }
+        // the latest value of every controller and the latest program set before timepos, PER CHANNEL (a track may
+        // use several channels: CH(1) ... CH(2) ...); the channel as the writer will send it (0..15)
+        let mut cc_values: Vec<Vec<isize>> = vec![];
+        let mut voices: Vec<isize> = vec![];
+        for _ in 0..16 { cc_values.push(vec![-1; 128]); voices.push(-1); }
         for e in self.events.iter() {
             match e.etype {
                 EventType::Meta | EventType::SysEx => {
@@ -284,8 +284,7 @@ impl Track {
                     let mut e2 = e.clone();
                     e2.time -= timepos;
                     if e2.time < 0 {
-                        voice = e2.v1;
-                        voice_ch = e2.channel;
+                        voices[value_range(0, e2.channel, 15) as usize] = e2.v1;
                         continue;
                     }
                     events.push(e2);
@@ -295,8 +294,8 @@ impl Track {
                     e2.time -= timepos;
                     if e2.time < 0 {
                         if 0 <= e2.v1 && e2.v1 < 128 {
-                            cc_values[e2.v1 as usize] = value_range(0, e2.v2, 127); // as the writer will send it
-                            cc_channels[e2.v1 as usize] = e2.channel;
+                            let ch = value_range(0, e2.channel, 15) as usize;
+                            cc_values[ch][e2.v1 as usize] = value_range(0, e2.v2, 127); // as the writer will send it
                         }
                         continue;
                     }
@@ -308,14 +307,18 @@ impl Track {
                 EventType::DirectSMF => {},
             }
         }
-        // add cc
-        for no in 0..128 {
-            if cc_values[no] < 0 { continue; }
-            events_head.push(Event::cc(0, cc_channels[no], no as isize, cc_values[no as usize]));
+        // add cc (each on the channel it was set on)
+        for ch in 0..16 {
+            for no in 0..128 {
+                if cc_values[ch][no] < 0 { continue; }
+                events_head.push(Event::cc(0, ch as isize, no as isize, cc_values[ch][no]));
+            }
         }
         // voice
-        if voice >= 0 {
-            events_head.push(Event::voice(0, voice_ch, voice));
+        for ch in 0..16 {
+            if voices[ch] >= 0 {
+                events_head.push(Event::voice(0, ch as isize, voices[ch]));
+            }
         }
         events_head.append(&mut events);
         self.events = events_head;
